@@ -1,4 +1,5 @@
 import ActixNet.Lemmas.Worker
+import ActixNet.Lemmas.WorkerSrvBridge
 /-!
 # C07 — workers call services only when ready; a failed readiness check rebuilds that service
 
@@ -231,5 +232,118 @@ example : Running (run (init cfgEx) [.conn 1, .conn 0, .poll 9, .closeChan, .pol
   refine ⟨by decide, ?_, by decide, by decide⟩
   have h : (run (init cfgEx) [.conn 1, .conn 0, .poll 9, .closeChan, .poll 9]).state = .available := by decide
   intro t sf tx; rw [h]; exact fun hh => by cases hh
+
+/-! ## C01: the two halves agree
+
+The accept-loop model (`Model/Srv.lean`, C01–C05/C08) treats each worker as a record
+`Srv.Wk {idx, alive, queue, inflight, c, tokp}` on which the environment may perform `sendPrim`, `incPrim`,
+`recv`, `finishNow`, `die` at any time; its theorems quantify over all such action sequences.  The worker
+model of this file (`Model/Worker.lean`) is shown to be *one of those environments*: read through
+`Bridge.absW`, every step of it is a finite sequence of exactly those actions (`Bridge.applyActs`, whose
+five clauses are `Srv`'s own definitions). -/
+
+section bridge
+open ActixNet.Bridge
+
+/-- **The bridge speaks about `Srv`'s definitions**: the five record updates of `applyAct` are what
+`Srv.sendPrim`, `Srv.incPrim` and `Srv.envStep` (`recv`, `finishNow`, `die`) do to `wk w`, and the
+notification decision of a release is the generated `Src.wcDecCrossed` in both. -/
+theorem bridge_actions_are_srv (cfg : Srv.Cfg) (s : Srv.St) (w : Nat) (hw : w < s.nWk) :
+    (∀ c, (Srv.sendPrim s w c).wk w = applyAct (s.wk w) (.send c)) ∧
+    (∀ idx, (Srv.incPrim cfg s w idx).wk w = applyAct (s.wk w) .inc) ∧
+    (Srv.envStep cfg s (.recv w)).1.wk w = applyAct (s.wk w) .recv ∧
+    (∀ id, (Srv.envStep cfg s (.finishNow w (some id))).1.wk w = applyAct (s.wk w) (.finish id)) ∧
+    (∀ id c, (s.wk w).inflight.find? (fun x => x.1 = id) = some c →
+      (Srv.envStep cfg s (.finishNow w (some id))).2 = .dec (Src.wcDecCrossed (s.wk w).c cfg.limit)) ∧
+    (Srv.envStep cfg s (.die w)).1.wk w = applyAct (s.wk w) .die :=
+  ⟨srv_send s w, srv_inc cfg s w, srv_recv cfg s w hw, fun id => srv_finish cfg s w id hw,
+   fun id c h => srv_finish_crossed cfg s w id hw c h, srv_die cfg s w hw⟩
+
+/-- **(a) the accept thread's actions**: `conn` is `send` then `inc`, `send` is `send`, `inc` is `inc` —
+whenever the worker model accepts the op. -/
+theorem accept_ops_are_srv_actions (s : St) (tok idx : Nat) (hfl : s.fault = none) (hco : s.chanOpen = true) (hfin : s.finished = false) :
+    absW idx (step s (.conn tok)).1 = applyActs (absW idx s) [.send (s.nextConn, tok), .inc] ∧
+    absW idx (step s (.send tok)).1 = applyActs (absW idx s) [.send (s.nextConn, tok)] ∧
+    absW idx (step s .inc).1 = applyActs (absW idx s) [.inc] := by
+  simp [step, hfl, hco, hfin, applyActs, applyAct, absW]
+
+/-- **(b) a service finishing a connection** is `Srv`'s `finish` of that id (ids are distinct, so removing
+"the connections with that id" and removing "the first connection with that id" coincide), the counter goes
+down by one, and the worker pushes a notification exactly when `Srv` says `crossed` (`Src.wcDecCrossed`). -/
+theorem finish_is_srv_finish (cfg : Cfg) (ops : List Op) (id idx : Nat) :
+    ∃ acts, (acts = [] ∨ acts = [.finish id]) ∧
+      applyActs (absW idx (run (init cfg) ops)) acts = absW idx (step (run (init cfg) ops) (.finish id)).1 := by
+  have hd := DB.run ops _ (DB.init cfg) (Good.init cfg)
+  generalize run (init cfg) ops = s at hd
+  simp only [step]
+  split
+  · exact ⟨[], Or.inl rfl, rfl⟩
+  · split
+    · rename_i hany
+      refine ⟨[.finish id], Or.inr rfl, ?_⟩
+      obtain ⟨c, hc, hcid⟩ := List.any_eq_true.1 hany
+      have hcid' : c.1 = id := by simpa using hcid
+      have hnd : (s.inflight.map (·.1)).Nodup := by
+        have := hd.dist; rw [List.map_append] at this; exact (List.nodup_append.1 this).1
+      cases hf : s.inflight.find? (fun x => x.1 = id) with
+      | none => have := List.find?_eq_none.1 hf c hc; simp [hcid'] at this
+      | some c' => simp only [applyActs, applyAct, absW, hf]; rw [filter_eq_eraseP hnd hf]
+    · exact ⟨[], Or.inl rfl, rfl⟩
+
+/-- **(c) a `poll` of a worker that is not shutting down is a sequence of `recv`s**: it takes connections only
+from the head of its channel, one at a time, in queue order (`queue = taken ++ queue'`), hands exactly those to
+services (`inflight' = inflight ++ taken`, the `call`s of this poll are `taken`), and leaves the counter alone —
+exactly what `Srv`'s `recv` assumes of a worker. -/
+theorem running_poll_is_recvs (s : St) (hg : Good s) (hr : Running s) (f : Nat) :
+    ∃ taken, Takes s (pollW f s) taken ∧ ∀ idx, applyActs (absW idx s) (List.replicate taken.length .recv) = absW idx (pollW f s) := by
+  obtain ⟨taken, h⟩ := pollW_running_takes f s hg hr
+  exact ⟨taken, h, fun idx => h.recvs hr.1 idx⟩
+
+/-- **(d) the `Shutdown` arm's release of a queued connection is `recv` followed by `finish` of it**: the counter
+goes down by one per released connection, nothing else changes. -/
+theorem shutdown_release_is_recv_finish (cfg : Cfg) (ops : List Op) (hfin : (run (init cfg) ops).finished = false) :
+    ∃ cs, (run (init cfg) ops).queue = cs ++ (release (run (init cfg) ops) (run (init cfg) ops).queue).queue ∧
+      (release (run (init cfg) ops) (run (init cfg) ops).queue).log = (run (init cfg) ops).log ++ cs.map .released ∧
+      ∀ idx, applyActs (absW idx (run (init cfg) ops)) (cs.flatMap fun c => [.recv, .finish c.1]) =
+        absW idx (release (run (init cfg) ops) (run (init cfg) ops).queue) :=
+  release_is_recv_finish hfin (DB.run ops _ (DB.init cfg) (Good.init cfg))
+
+/-- **(e) the worker future finishing is `die`**: the receiving end of the channel goes away and whatever is
+still queued is dropped with it. -/
+theorem finishing_is_die (s : St) (hfin : s.finished = false) (b : Bool) (idx : Nat) :
+    applyActs (absW idx s) [.die] = absW idx (finish s b) := by
+  simp [applyActs, applyAct, absW, hfin, finish, emit]
+
+/-- **Every step of the worker model is a finite sequence of `Srv` worker actions** — each environment op, a
+whole `poll` (any state of the invariant: serving, restarting, shutting down, finishing), a `poll` overtaken by
+other threads' actions. -/
+theorem worker_step_is_srv_actions (cfg : Cfg) (ops : List Op) (op : Op) :
+    ∃ acts, ∀ idx, applyActs (absW idx (run (init cfg) ops)) acts = absW idx (stepY (run (init cfg) ops) op).1 :=
+  (Sim.of_stepY (Good.run ops _ (Good.init cfg)) op).acts (DB.run ops _ (DB.init cfg) (Good.init cfg))
+
+/-- **The two halves agree** (headline, for props/C01): for every history of the worker model, the connections
+handed to services are, in order, a subsequence of what the accept side sent, each at most once, to the service
+of its own token — AND the accept side's view of the worker after that history (alive, queue, in progress, raw
+counter) is exactly what the accept-loop model computes from a sequence of its own per-worker environment
+actions. The behaviours of the worker model are among the environments the `Srv` theorems quantify over. -/
+theorem two_halves_agree (cfg : Cfg) (ops : List Op) :
+    (∃ acts, ∀ idx, applyActs (absW idx (init cfg)) acts = absW idx (run (init cfg) ops)) ∧
+    (callsOf (run (init cfg) ops).log).Sublist (run (init cfg) ops).sent ∧
+    (callsOf (run (init cfg) ops).log).Nodup ∧
+    (∀ tok inc c, Ev.call tok inc c ∈ (run (init cfg) ops).log → tok = c.2 ∧ tok < cfg.n) :=
+  ⟨sim_run ops _ (DB.init cfg) (Good.init cfg), calls_in_arrival_order cfg ops, (no_connection_handled_twice cfg ops).2,
+   fun tok inc c h => call_goes_to_token cfg ops tok inc c h⟩
+
+example : (applyActs (absW 7 (init cfgEx)) [.send (0, 1), .inc, .send (1, 0), .inc, .recv, .recv]).inflight =
+      (absW 7 (run (init cfgEx) [.conn 1, .conn 0, .poll 9, .poll 9])).inflight ∧
+    (applyActs (absW 7 (init cfgEx)) [.send (0, 1), .inc, .send (1, 0), .inc, .recv, .recv]).c =
+      (absW 7 (run (init cfgEx) [.conn 1, .conn 0, .poll 9, .poll 9])).c ∧
+    (absW 7 (run (init cfgEx) [.conn 1, .conn 0, .poll 9, .poll 9])).queue = [] := by decide
+
+example : (applyActs (absW 0 (run (init cfgEx) [.conn 1, .poll 9, .conn 0, .conn 1])) [.die]).alive = false ∧
+    (absW 0 (run (init cfgEx) [.conn 1, .poll 9, .conn 0, .conn 1, .stop false, .poll 1])).alive = false ∧
+    (absW 0 (run (init cfgEx) [.conn 1, .poll 9, .conn 0, .conn 1, .stop false, .poll 1])).queue = [] := by decide
+
+end bridge
 
 end ActixNet.C07
